@@ -94,6 +94,8 @@ impl Park {
     #[inline]
     pub(crate) fn unpark_impl(&self, b_sync: bool) {
         if !self.state.swap(true, Ordering::AcqRel) {
+            #[cfg(may_verif)]
+            may_queue::verif::point(may_queue::verif::site::PARK_UNPARK_SWAPPED, Arc::as_ptr(&self.wait_co) as usize);
             self.wake_up(b_sync);
         }
     }
@@ -143,6 +145,8 @@ impl Park {
             return Ok(());
         }
 
+        #[cfg(may_verif)]
+        may_queue::verif::point(may_queue::verif::site::PARK_CHECKED, Arc::as_ptr(&self.wait_co) as usize);
         // before a new yield wait the kernel done
         while self.wait_kernel.load(Ordering::Acquire) {
             yield_now();
@@ -153,8 +157,12 @@ impl Park {
         // what if the state is set before yield?
         // the subscribe would re-check it
         yield_with(self);
+        #[cfg(may_verif)]
+        may_queue::verif::point(may_queue::verif::site::PARK_RESUMED, Arc::as_ptr(&self.wait_co) as usize);
         // clear the trigger state
         self.check_park();
+        #[cfg(may_verif)]
+        may_queue::verif::point(may_queue::verif::site::PARK_AFTER_CLEAR, Arc::as_ptr(&self.wait_co) as usize);
         // remove timer handle
         self.remove_timeout_handle();
 
@@ -199,6 +207,8 @@ impl EventSource for Park {
     // register the coroutine to the park
     fn subscribe(&mut self, co: CoroutineImpl) {
         let cancel = co_cancel_data(&co);
+        #[cfg(may_verif)]
+        may_queue::verif::point(may_queue::verif::site::PARK_SUB_ENTER, Arc::as_ptr(&self.wait_co) as usize);
         // if we share the same park, the previous timer may wake up it by false
         // if we not deleted the timer in time
         let timeout_handle = self
@@ -209,9 +219,13 @@ impl EventSource for Park {
 
         let _g = self.delay_drop();
 
+        #[cfg(may_verif)]
+        may_queue::verif::point(may_queue::verif::site::PARK_SUB_ARMED, Arc::as_ptr(&self.wait_co) as usize);
         // register the coroutine
         self.wait_co.store(co);
 
+        #[cfg(may_verif)]
+        may_queue::verif::point(may_queue::verif::site::PARK_SUB_STORED, Arc::as_ptr(&self.wait_co) as usize);
         // re-check the state, only clear once after resume
         if self.state.load(Ordering::Acquire) {
             // here may have recursive call for subscribe
@@ -219,8 +233,12 @@ impl EventSource for Park {
             return self.fast_wake_up();
         }
 
+        #[cfg(may_verif)]
+        may_queue::verif::point(may_queue::verif::site::PARK_SUB_RECHECKED, Arc::as_ptr(&self.wait_co) as usize);
         // register the cancel data
         cancel.set_co(self.wait_co.clone());
+        #[cfg(may_verif)]
+        may_queue::verif::point(may_queue::verif::site::PARK_SUB_CANCELSET, Arc::as_ptr(&self.wait_co) as usize);
         // re-check the cancel status
         if cancel.is_canceled() {
             unsafe { cancel.cancel() };
